@@ -256,3 +256,104 @@ def s_builder_graph_io(_ctx):
 SCENARIOS.append(Scenario("C18.builder.graph_io", s_builder_graph_io,
                           F("onnxscript/_internal/builder.py", "GraphBuilder.input", "GraphBuilder.initializer", "GraphBuilder.add_output", "GraphBuilder.subgraph", "build_graph"),
                           kind="evaluation"))
+
+
+def s_nn_histories(_ctx):
+    """Multi-step histories on the REAL nn classes / builder (C18 quantifies over build sequences):
+      * slicing an attached ModuleList gives a view: the shared children keep their names, so a later trace still names every initializer
+        <root>.<state_dict key>;
+      * load_state_dict after the module was traced (parameters realized, their ir names qualified) still addresses parameters by their
+        state_dict keys;
+      * modules entered inside a subgraph body that itself builds a subgraph (two levels of nesting): the inner module's parameters are
+        named by the full module path (model.a.scale.w / model.b.scale.w), one initializer each, in the root graph."""
+    import numpy as np
+    import onnx_ir as ir
+    from contracts.c17_opsets import Agg
+    from onnxscript._internal import builder
+    nn, Leaf, Pair, ListNet, SeqNet = _classes()
+    agg = Agg()
+
+    def trace(root):
+        if root._name is None:
+            root._set_name("model")
+        g = ir.Graph([], [], nodes=[], opset_imports={"": 18}, name="g")
+        x = ir.Value(name="x", type=ir.TensorType(ir.DataType.FLOAT), shape=ir.Shape([2]))
+        g.inputs.append(x)
+        gb = builder.GraphBuilder(g)
+        root(gb.op, x)
+        return g
+    # 1. slice of an attached list
+    for sl in (slice(1, None), slice(None, None, 2), slice(0, 2), slice(-1, None)):
+        net = ListNet([Leaf(), Leaf(), Leaf(2)], late=False)
+        net._set_name("model")
+        before = list(net.state_dict())
+        view = net.layers[sl]
+        items = list(net.layers)[sl]
+        ok_view = list(view) == items
+        try:
+            g = trace(net)
+            names = sorted(g.initializers)
+        except Exception as e:  # noqa: BLE001
+            names = [f"{type(e).__name__}: {e}"]
+        agg.ob("C18.nn.module_list.a_slice_is_a_view_children_keep_their_names", ok_view and list(net.state_dict()) == before and names == sorted("model." + k for k in before),
+               f"layers[{sl.start}:{sl.stop}:{sl.step}]: state_dict {list(net.state_dict())}, initializers {names}", CL, case=f"[{sl.start}:{sl.stop}:{sl.step}]")
+    # 2. load_state_dict after tracing
+    net = SeqNet([Leaf(), Pair(Leaf(), Leaf())])
+    trace(net)
+    keys = list(net.state_dict())
+    tens = {k: ir.tensor(np.full((2,), float(i), np.float32), name=k) for i, k in enumerate(keys)}
+    try:
+        net.load_state_dict(dict(tens))
+        ok2 = all(p.const_value is tens[k] for k, p in net.named_parameters())
+        why = ""
+    except Exception as e:  # noqa: BLE001
+        ok2, why = False, f"{type(e).__name__}: {e}"
+    lenient = SeqNet([Leaf(), Pair(Leaf(), Leaf())])
+    trace(lenient)
+    lenient.load_state_dict(dict(tens), strict=False)
+    ok2b = all(p.const_value is tens[k] for k, p in lenient.named_parameters())
+    agg.ob("C18.nn.load_state_dict.after_tracing_parameters_are_still_addressed_by_their_state_dict_keys", ok2 and ok2b, why or f"strict {ok2}, non-strict {ok2b}", CL)
+
+    # 3. modules inside nested subgraph bodies
+    class Block(nn.Module):
+        def __init__(self):
+            super().__init__()
+            self.scale = Leaf()
+
+        def forward(self, op, x):
+            inner_in = ir.Value(name="bi", type=ir.TensorType(ir.DataType.FLOAT), shape=ir.Shape([2]))
+            inner_out = ir.Value(name="bo", type=ir.TensorType(ir.DataType.FLOAT), shape=ir.Shape([2]))
+            body = op.builder.subgraph(lambda op2, v: self.scale(op2, v), [inner_in], [inner_out], name="inner")
+            return op.Identity(x), body
+
+    class Model(nn.Module):
+        def __init__(self):
+            super().__init__("model")
+            self.a = Block()
+            self.b = Block()
+
+        def forward(self, op, x):
+            def outer_body(op1, v):
+                y, _ = self.a(op1, v)
+                z, _ = self.b(op1, y)
+                return z
+            oi = ir.Value(name="oi", type=ir.TensorType(ir.DataType.FLOAT), shape=ir.Shape([2]))
+            oo = ir.Value(name="oo", type=ir.TensorType(ir.DataType.FLOAT), shape=ir.Shape([2]))
+            op.builder.subgraph(outer_body, [oi], [oo], name="outer")
+            return x
+    try:
+        g = trace(Model())
+        names = sorted(g.initializers)
+        ok3 = names == ["model.a.scale.w", "model.b.scale.w"]
+        why3 = str(names)
+    except Exception as e:  # noqa: BLE001
+        ok3, why3 = False, f"{type(e).__name__}: {e}"
+    agg.ob("C18.nn.subgraph.modules_called_in_a_nested_subgraph_body_keep_the_full_module_path", ok3, why3, CL)
+    return {"obligations": agg.obs, "paths": 6, "covered": ["histories=3"], "notes": [], "functions": []}
+
+
+SCENARIOS.append(Scenario("C18.nn.histories", s_nn_histories,
+                          F("onnxscript/nn/_module_list.py", "ModuleList.__getitem__", "ModuleList._register_child")
+                          + F("onnxscript/nn/_module.py", "Module.load_state_dict", "Module._load_state_dict_recursive", "Module.__call__")
+                          + F("onnxscript/_internal/builder.py", "GraphBuilder.subgraph", "build_graph", "GraphBuilder.push_module", "GraphBuilder.pop_module"),
+                          kind="evaluation"))
